@@ -270,7 +270,7 @@ class StateModel:
         if is_tv:
             # implicit trivia never fails: the list grows by the (possibly empty) trivia pairs
             run.set_seq(pairs, z3.Concat(cur, P))
-        elif self.template_mode:
+        elif self.template_mode and ok_f.name() != "rule_ok":
             run.set_seq(pairs, z3.Concat(cur, z3.If(ok, P, junk_f(i, L))))
         else:
             run.set_seq(pairs, z3.If(ok, z3.Concat(cur, P), cur))
